@@ -1,9 +1,72 @@
-/- C14 driver: not written yet -/
+/-
+  C14 driver: replays the thread-tagged refcount event log of harness/treethreads.cpp (controlled
+  mode: the log is the real total order) through the atomic-step model
+  (LibfiveModel/RefCountConc.lean: `cstep`).  Every observed value must be the model's current
+  count, a delete must come from the thread that observed 1 → 0, no event may touch a dying or
+  freed node.  Output: `ok …` / `MISMATCH …`.
+-/
 import Driver.Parse
+import LibfiveModel.RefCountConc
+open Libfive Libfive.RCC
 
 namespace Driver.C14
 
-def run (_args : List String) (lines : Array String) : Array String :=
-  #[s!"MISMATCH driver-not-implemented {lines.size}"]
+def parseEv (ws : List String) : Option Ev :=
+  match ws with
+  | [t, k, n, old] =>
+    match n.toNat? with
+    | none => none          -- "-1": event on a node the harness never saw allocated
+    | some n =>
+      let t := nat! t
+      match k with
+      | "1" => some (.add t n (nat! old))
+      | "2" => some (.sub t n (nat! old))
+      | "3" => some (.alloc t n)
+      | "4" => some (.del t n)
+      | _ => none
+  | _ => none
+
+def run (_args : List String) (lines : Array String) : Array String := Id.run do
+  let mut out : Array String := #[]
+  let mut s : CState := #[]
+  let mut n := 0
+  let mut bad := false
+  let mut threads : List Nat := []
+  let mut dels := 0
+  let mut switches := 0
+  let mut lastT := 0
+  for line in lines do
+    match words line with
+    | "ev" :: rest =>
+      if !bad then
+        match parseEv rest with
+        | none =>
+          bad := true
+          out := out.push s!"MISMATCH event {n} unparsable / unknown node: {line}"
+        | some e =>
+          if !threads.contains e.tid then threads := e.tid :: threads
+          if e.tid != lastT then switches := switches + 1
+          lastT := e.tid
+          match cstep s e with
+          | some s' =>
+            s := s'
+            match e with
+            | .del _ _ => dels := dels + 1
+            | _ => pure ()
+          | none =>
+            bad := true
+            out := out.push s!"MISMATCH event {n} rejected by the atomic-step model: {line} ; cell before = {repr (s[e.node]?)}"
+        n := n + 1
+    | "done" :: _ =>
+      if !bad then
+        -- end of run: every node is freed or still owned (live with rc ≥ 1); nothing is left dying
+        let dying := s.foldl (fun c x => match x with | .dying _ => c + 1 | _ => c) 0
+        let zero := s.foldl (fun c x => match x with | .live 0 => c + 1 | _ => c) 0
+        if dying != 0 || zero != 0 then
+          out := out.push s!"MISMATCH end of trace: {dying} nodes dying without delete, {zero} live nodes with count 0"
+        else
+          out := out.push s!"ok trace events {n} nodes {s.size} deletes {dels} threads {threads.length} switches {switches}"
+    | _ => pure ()
+  return out
 
 end Driver.C14
